@@ -23,6 +23,7 @@ type Opts struct {
 	SortIdentities    bool // identities of an identityref as a set
 	NoDescriptions    bool
 	NoModuleNamespace bool // do not print module / namespace / submodule of nodes
+	MaskXPathNS       bool // do not print the default namespace recorded with when / must expressions
 	// Prune, when set, skips a node (and its subtree) for which it returns false.
 	Prune func(n schema.Node) bool
 }
@@ -232,7 +233,7 @@ func (d *dumper) node(depth int, path string, n schema.Node) {
 	sort.Strings(dn)
 	attrs = append(attrs, fmt.Sprintf("defchildren=%v", dn))
 	d.line(depth, "%s %s %s", kind, p, strings.Join(attrs, " "))
-	nsMasked := d.o.NoModuleNamespace || (d.o.MaskModuleOf != nil && d.o.MaskModuleOf(p))
+	nsMasked := d.o.NoModuleNamespace || d.o.MaskXPathNS || (d.o.MaskModuleOf != nil && d.o.MaskModuleOf(p))
 	for _, w := range n.Whens() {
 		expr := ""
 		if w.Mach != nil {
